@@ -5,6 +5,7 @@ import (
 	"context"
 	"errors"
 	"fmt"
+	"github.com/golang/protobuf/proto"
 	"io"
 	"runtime/debug"
 
@@ -21,7 +22,7 @@ func init() {
 	register(&Property{
 		ID:    "C19",
 		Level: "exploration",
-		Rule: "one case = one or several (concurrent, 2-4) in-memory server streams driven through the real (*AppEncryption).Session handler over a real SessionFactory: request sequences over the alphabet {get-session valid / empty id, encrypt, decrypt genuine / foreign-partition / corrupted / empty record, empty request} terminated by end-of-stream, a Recv error or a Send error; all sequences up to length 4 (quick) / 5 (thorough) are enumerated, longer ones sampled; " +
+		Rule: "one case = one or several (concurrent or successive, 2-4) in-memory server streams, optionally after an earlier complete stream on the same service, driven through the real (*AppEncryption).Session handler over a real SessionFactory: request sequences over the alphabet {get-session valid / empty id, encrypt, decrypt genuine / foreign-partition / corrupted / empty record, empty request} terminated by end-of-stream, a Recv error or a Send error; all sequences up to length 4 (quick) / 5 (thorough) are enumerated, longer ones sampled; " +
 			"non-trivial = the sequence reaches the handler with at least one request after a (successful or rejected) get-session; distinct = distinct request sequences (with fault placement)",
 		Run:         runC19,
 		Sweep:       sweepC19,
@@ -57,7 +58,7 @@ func sweepC19(tier string) [][]uint32 {
 	var rec func(p []uint32, d, l int)
 	rec = func(p []uint32, d, l int) {
 		if d == l {
-			out = append(out, append([]uint32(nil), p...))
+			out = append(out, append(append([]uint32(nil), p...), 0), append(append([]uint32(nil), p...), 1))
 			return
 		}
 		for s := uint32(0); s < rqKinds; s++ {
@@ -97,6 +98,17 @@ func (m *memStream) Recv() (*pb.SessionRequest, error) {
 
 func (m *memStream) Send(r *pb.SessionResponse) error {
 	m.s.Point(simrt.KSeam, "stream.send")
+	// what the client gets is what the wire codec makes of the message at this instant
+	if r != nil {
+		b, err := proto.Marshal(r)
+		if err != nil {
+			return err
+		}
+		r = new(pb.SessionResponse)
+		if err := proto.Unmarshal(b, r); err != nil {
+			return err
+		}
+	}
 	m.sent = append(m.sent, r)
 	if len(m.sent)-1 == m.sendErrAt {
 		return errTransport
@@ -132,10 +144,17 @@ func runC19(t *simrt.Tape, o Opts) Outcome {
 		}
 	}
 	nstreams := 1
-	if !swept {
+	// prior: the service has already served one complete, successful stream (get-session, encrypt,
+	// end-of-stream) before the streams under test; serial: the streams run one after the other.
+	prior, serial := false, false
+	if swept {
+		prior = t.Choose(2, "prior-stream") == 1
+	} else {
 		nstreams = 1 + t.Choose(4, "nstreams")
+		prior = t.Choose(3, "prior-stream") == 1
+		serial = nstreams > 1 && t.Choose(3, "serial") == 1
 	}
-	cfg := schedCfg(t, o, nstreams > 1)
+	cfg := schedCfg(t, o, nstreams > 1 && !serial)
 	var w *world.World
 	var st Stats
 	s := simrt.Run(t, cfg, func(s *simrt.Sim) {
@@ -339,8 +358,15 @@ func runC19(t *simrt.Tape, o Opts) Outcome {
 				}
 			}
 		}
-		if nstreams == 1 {
-			runStream(0, plans[0])
+		if prior {
+			runStream(-1, plan{[]int{rqGetOK, rqEncrypt, rqDecGenuine}, -1, -1})
+		}
+		if nstreams == 1 || serial {
+			for i := range plans {
+				if len(w.Viols) == 0 {
+					runStream(i, plans[i])
+				}
+			}
 		} else {
 			var tasks []*simrt.Task
 			for i := range plans {
@@ -357,8 +383,8 @@ func runC19(t *simrt.Tape, o Opts) Outcome {
 			names[i] = rqNames[k]
 		}
 		st.Nontrivial = reached
-		st.Class = fmt.Sprintf("%d|%v|%d/%d", nstreams, names, plans[0].recvErrAt, plans[0].sendErrAt)
-		st.Sample = map[string]any{"streams": nstreams, "first_sequence": names, "end": endOf(plans[0])}
+		st.Class = fmt.Sprintf("%d%v%v|%v|%d/%d", nstreams, prior, serial, names, plans[0].recvErrAt, plans[0].sendErrAt)
+		st.Sample = map[string]any{"streams": nstreams, "prior_stream": prior, "serial": serial, "first_sequence": names, "end": endOf(plans[0])}
 	})
 	return finish(s, w, st, true)
 }
